@@ -239,6 +239,31 @@ theorem typeOk_spec (d t : J) :
       · cases t <;> simp [typeOk, J.tag, J.isStr, h1, h2]
   | _ => cases t <;> simp [typeOk, J.tag, J.isStr]
 
+/-- `omit_is_element_membership`: a key is exempt only when it EQUALS an omit key — the model's
+`omit_keys` is a list of strings and the test is element membership, not containment in a string.
+(The call sites are held to that shape by the table obligation `table:omit-keys-call-sites`: every
+`omit_keys` argument is a list / tuple display of strings; a bare string would turn `i not in
+omit_keys` into a substring test.) -/
+theorem omit_is_element_membership (om : List String) (k : String) :
+    om.contains k = true ↔ k ∈ om := by
+  simp
+
+/-- pieces of an omit key are not omit keys: `program`, `gram`, `s`, the empty key, `Programs` in a
+simulation-settings file and `method`, `thod` in a program file are unknown keys and are rejected,
+at the top level and nested -/
+theorem omit_key_pieces_rejected :
+    (["program", "gram", "s", "", "Programs", "programss"].all fun k =>
+      (match checkTypes ["programs"] (.obj (.cons "n" (.int 1) .nil)) (.obj (.cons k (.int 7) .nil)) with
+        | .error .unknown_key => true
+        | _ => false)) = true ∧
+    (["method", "thod", "me", "s", ""].all fun k =>
+      (match checkTypes ["methods"]
+          (.obj (.cons "economics" (.obj (.cons "price" (.float 3 0) .nil)) .nil))
+          (.obj (.cons "economics" (.obj (.cons k (.int 7) .nil)) .nil)) with
+        | .error .unknown_key => true
+        | _ => false)) = true := by
+  decide +kernel
+
 /-- `rejects_unknown_key`: a key (not an omit key) the defaults lack at the same omit-free path
 makes `check_types` reject, at any depth -/
 theorem rejects_unknown_key {om : List String} {d t : J} {p : Path} {tk : KV} {k : String}
